@@ -126,11 +126,12 @@ def prove(assumptions, goal, timeout_s=20.0, want_model=True):
     has_uf = _has_uf(base)
     budget = timeout_s * 1000
     strategies = []
-    strategies.append(('z3-default', lambda: _run_z3(base, budget * 0.1)))
     if has_uf:
+        strategies.append(('z3-default', lambda: _run_z3(base, budget * 0.1)))
         strategies.append(('z3-nlsat-ufabs', lambda: _nl_abs(base, budget * 0.35)))
     else:
         strategies.append(('z3-nlsat', lambda: _run_z3(base, budget * 0.35, _nlsat_tactic())))
+        strategies.append(('z3-default', lambda: _run_z3(base, budget * 0.1)))
     strategies.append(('cvc5', lambda: _run_cvc5(base, budget * 0.2)))
     strategies.append(('z3-default-long', lambda: _run_z3(base, budget * 0.35)))
     for name, f in strategies:
